@@ -1,5 +1,6 @@
 SPECIFICATION JSpec
 CONSTANT MaxDev = 0
+CONSTANT Diag = FALSE
 CONSTANT MaxLen = 9
 INVARIANT Report
 CHECK_DEADLOCK FALSE
